@@ -152,7 +152,9 @@ CLAIMED["C06"] = {
     "note": "Trusted: Lean kernel + standard axioms; the meaning of the generated SQL (NULL comparisons false, INT "
             "affinity) is modelled, validated by the correspondence. Three defects repaired in /repo (2^29 guards, "
             "garbled overlap OR).",
-    "technique": "Lean 4 theorems (omega over bin arithmetic via C12) + unit-layer differential correspondence",
+    "technique": "Lean 4 theorems (omega over bin arithmetic via C12, whose bins() model is proved equal to the Lean "
+                 "translation of the current bins.py) + unit-layer differential correspondence (incl. the theorems' "
+                 "hypothesis BinInv checked on every imported database)",
     "design_ref": "DESIGN.md §3 C06",
 }
 CLAIMED["C11"] = {
